@@ -29,18 +29,22 @@ class GuardedList(list):
 
 
 def new_context(extra=None):
-    ctx = {'log': GuardedList(), 'glog': GuardedList(), 'gv': {}, 'cv': {}, 'v': 0}
+    ctx = {'log': GuardedList(), 'glog': GuardedList(), 'gv': {}, 'cv': {}, 'v': 0, 'w': []}
     if extra:
         ctx.update(extra)
     return ctx
 
 
-def _sends(lst):
+COUNTERS = {'v': ('v = v + 1', 'v'), 'w': ('w.append(1)', 'len(w)')}
+
+
+def _sends(lst, val='v'):
     out = []
     for j, s in enumerate(lst or []):
         kind = s.get('kind', 'send')
         base = s.get('uid_base', 0)
-        args = ['%r' % s['name'], ('uid=%d+v*10+%d' % (base, j)) if base else 'uid=v*10+%d' % j]
+        args = ['%r' % s['name'], ('uid=%d+%s*10+%d' % (base, val, j)) if base
+                else 'uid=%s*10+%d' % (val, j)]
         if s.get('delay') is not None:
             args.append('delay=%r' % s['delay'])
         for k, val in sorted((s.get('params') or {}).items()):
@@ -49,18 +53,24 @@ def _sends(lst):
     return out
 
 
-def entry_code(sid, sends=None, extra=None):
-    lines = ['v = v + 1', "log.append(('en', %d, v, time))" % sid] + (extra or []) + _sends(sends)
+def entry_code(sid, sends=None, extra=None, counter='v'):
+    bump, val = COUNTERS[counter]
+    lines = [bump, "log.append(('en', %d, %s, time))" % (sid, val)] + (extra or []) + \
+        _sends(sends, val)
     return '\n'.join(lines)
 
 
-def exit_code(sid, sends=None, extra=None):
-    lines = ['v = v + 1', "log.append(('ex', %d, v, time))" % sid] + (extra or []) + _sends(sends)
+def exit_code(sid, sends=None, extra=None, counter='v'):
+    bump, val = COUNTERS[counter]
+    lines = [bump, "log.append(('ex', %d, %s, time))" % (sid, val)] + (extra or []) + \
+        _sends(sends, val)
     return '\n'.join(lines)
 
 
-def action_code(tid, sends=None, extra=None):
-    lines = ['v = v + 1', "log.append(('tr', %d, v, time))" % tid] + (extra or []) + _sends(sends)
+def action_code(tid, sends=None, extra=None, counter='v'):
+    bump, val = COUNTERS[counter]
+    lines = [bump, "log.append(('tr', %d, %s, time))" % (tid, val)] + (extra or []) + \
+        _sends(sends, val)
     return '\n'.join(lines)
 
 
@@ -83,14 +93,15 @@ def cond_code(cid, with_old):
     return "(log.append(('c', %d, None)) or cv[%d])" % (cid, cid)
 
 
-def cond_code_fn(cid, with_old):
+def cond_code_fn(cid, with_old, counter='v'):
     """contract condition calling the harness function ``chk`` (fault injection by count)"""
     if with_old:
-        return "chk(%d, __old__.v if __old__ is not None else None)" % cid
+        old = '__old__.v' if counter == 'v' else 'len(__old__.w)'
+        return "chk(%d, %s if __old__ is not None else None)" % (cid, old)
     return "chk(%d, None)" % cid
 
 
-_TID = re.compile(r"log\.append\(\('tr', (\d+), v, time\)\)")
+_TID = re.compile(r"log\.append\(\('tr', (\d+), (?:v|len\(w\)), time\)\)")
 _SID = re.compile(r"log\.append\(\('(?:en|ex)', (\d+), v, time\)\)")
 
 
@@ -100,7 +111,7 @@ def tid_of(transition):
     return int(m.group(1)) if m else None
 
 
-def instrument(spec, guards='gv', contracts=None, cond_fn=False):
+def instrument(spec, guards='gv', contracts=None, cond_fn=False, counter='v'):
     """Return a copy of the spec with code rendered from the abstract annotations.
 
     guards: 'gv' -> table guards on every transition; None -> leave as is.
@@ -108,16 +119,20 @@ def instrument(spec, guards='gv', contracts=None, cond_fn=False):
     and transitions into probe conditions.
     """
     spec = copy.deepcopy(spec)
-    mk = cond_code_fn if cond_fn else cond_code
+    if cond_fn:
+        def mk(c, with_old):
+            return cond_code_fn(c, with_old, counter)
+    else:
+        mk = cond_code
     for s in spec['states']:
-        s['on_entry'] = entry_code(s['sid'], s.get('sends_entry'), s.get('extra_entry'))
-        s['on_exit'] = exit_code(s['sid'], s.get('sends_exit'), s.get('extra_exit'))
+        s['on_entry'] = entry_code(s['sid'], s.get('sends_entry'), s.get('extra_entry'), counter)
+        s['on_exit'] = exit_code(s['sid'], s.get('sends_exit'), s.get('extra_exit'), counter)
         if contracts:
             s['pre'] = [mk(c, False) for c in s.get('c_pre') or []]
             s['post'] = [mk(c, True) for c in s.get('c_post') or []]
             s['inv'] = [mk(c, True) for c in s.get('c_inv') or []]
     for t in spec['transitions']:
-        t['action'] = action_code(t['id'], t.get('sends'), t.get('extra'))
+        t['action'] = action_code(t['id'], t.get('sends'), t.get('extra'), counter)
         if guards in ('gv', 'time') and t.get('tguard'):
             t['guard'] = time_guard_code(t['id'], t['tguard'][0], t['tguard'][1])
         elif guards == 'gv':
